@@ -10,6 +10,7 @@ Oracle: refmodel (independent chords, slant optical depth, depth integral) + met
 """
 import numpy as np
 
+from vmon import faults
 from vmon import refmodel as R
 from vmon import taps, world
 
@@ -34,7 +35,8 @@ REQUIRED = dict(monitors=['chords', 'exp(-tau)', 'depth', 'depth>=bare', 'depth<
                           'scaling-monotone', 'early-exit-licensed', 'chords-sum-to-full-chord'],
                 classes=['method:new', 'method:old', 'magnitude:transparent', 'magnitude:saturating',
                          'early-exit-observed', 'contrib:CIA', 'contrib:Rayleigh', 'contrib:SimpleClouds',
-                         'contrib:FlatMie', 'contrib:LeeMie', 'nlayers:2', 'rerun:evaluated-after-change'])
+                         'contrib:FlatMie', 'contrib:LeeMie', 'nlayers:2', 'rerun:evaluated-after-change',
+                         'fault:fired:temperature', 'fault:fired:chemistry', 'fault:fired:contribution', 'fault:fired:pressure'])
 TOL = 1e-10
 CUT = float(np.exp(-10.0))
 
@@ -47,6 +49,7 @@ def classify(f):
 
 def setup(ctx):
     from taurex.model import TransmissionModel
+    faults.install(ctx)
     from taurex.contributions import Contribution, AbsorptionContribution, CIAContribution, SimpleCloudsContribution
     problems = R.self_test()
     if problems:
@@ -88,6 +91,7 @@ def setup(ctx):
 
 def teardown(ctx):
     taps.untap_all()
+    faults.uninstall()
 
 
 # ---------------------------------------------------------------- generators
@@ -375,6 +379,14 @@ def wl_rerun(ctx, rng):
         changes = perturb_model(rng, model)
         changes_all.append([(n, float(a), float(b)) for n, a, b in changes])
         ctx.feature(summary=world.spec_summary(spec), new_method=spec['new_method'], changes=changes_all)
+        if rng.random() < 0.4:
+            # a rejected evaluation in between (what a sampler produces all the time): an InvalidModelException is
+            # injected at a profile / chemistry / contribution call; the evaluation after it is judged as usual
+            site = faults.drive_into(ctx, rng, model.model)
+            if site == 'rejected':
+                return
+            if site:
+                changes_all[-1].append(('fault:' + site, 0.0, 0.0))
         _state['snap'] = None
         try:
             wn, depth, trans, _ = model.model()
